@@ -81,6 +81,10 @@ func init() {
 			ruleNoParamWrites(c, w, tb, ef, "R12.1", api)
 			ruleNoPkgState(c, w, tb, ef, "R12.2", w.ModuleFuncs(OtpPath))
 			ruleNoAliasingResult(c, w, tb, "R12.3", api)
+			runControl(c, "R12.1", []string{"ControlWritesParam|param:p:store", "ControlAppendsParam|param:p:append"}, func(sink *Check, cw *World) {
+				ctb := NewTB(cw)
+				ruleNoParamWrites(sink, cw, ctb, NewEffects(ctb), "R12.1", cw.ExportedAPI())
+			})
 			c.Floor("R12.1", 30)
 			c.Floor("R12.2", 40)
 			c.Floor("R12.3", 5)
